@@ -154,7 +154,7 @@ Theorem guarded_linked_when_free k g calls sched : calls_ok calls ->
     good g n.
 Proof.
   intros Hok st El n c B. subst st. pose proof (ginv_reach k g calls sched Hok) as I.
-  destruct (gi_free _ _ _ _ I El) as (_ & W & _). split; [|split].
+  destruct (gi_free _ _ _ _ I El) as (W & _). split; [|split].
   - eapply wf_linked; eauto.
   - intros d. eapply unfold_wf; eauto.
   - eapply wf_good; eauto.
@@ -171,15 +171,69 @@ Proof.
   pose proof (inside_is_holder _ _ _ _ _ _ I H2 O2) as E2. congruence.
 Qed.
 
-(* a queued thread always has a holder to wait for *)
-Theorem guarded_wait_has_holder k g calls sched t th : calls_ok calls ->
-  let st := run Guarded k g calls sched in
-  nth_error (s_thr st) t = Some th -> t_pc th = PWait -> exists h, s_lock st = Some h /\ h <> t.
+(* ---- hand-off policies: every run of a mutex that hands the lock over, under ANY grant
+   policy, is a run of the machine (on the schedule [expand] computes) ------------------- *)
+Lemma hrun_from_expand gr d k g sched : forall st,
+  hrun_from gr d k g sched st = run_from d k g (expand gr d k g sched st) st.
 Proof.
-  intros Hok st Ht Hp. subst st. pose proof (ginv_reach k g calls sched Hok) as I.
-  destruct (s_lock (run Guarded k g calls sched)) as [h|] eqn:El.
-  - exists h. split; [reflexivity|]. intros ->.
-    destruct (gi_held _ _ _ _ I t El) as (thh & n & rest & Hh & _ & Ti & _).
-    rewrite Ht in Hh. inversion Hh; subst thh. rewrite Hp in Ti. exact Ti.
-  - destruct (gi_free _ _ _ _ I El) as (_ & _ & Hall). rewrite (Hall _ _ Ht) in Hp. discriminate.
+  induction sched as [|t r IH]; intros st; [reflexivity|].
+  cbn [hrun_from fold_left expand]. rewrite run_from_app. fold (hstep gr d k g t st).
+  change (fold_left (fun s t0 => hstep gr d k g t0 s) r (hstep gr d k g t st))
+    with (hrun_from gr d k g r (hstep gr d k g t st)).
+  apply IH.
 Qed.
+
+Theorem handoff_refines gr d k g calls sched :
+  hrun gr d k g calls sched = run d k g calls (expand gr d k g sched (init calls)).
+Proof. unfold hrun, run. apply hrun_from_expand. Qed.
+
+Lemma hsched_head gr d k g t st : In t (hsched gr d k g t st).
+Proof.
+  unfold hsched. destruct (released_by t st (gstep d k g t st)); [|left; reflexivity].
+  destruct (gr (gstep d k g t st)); left; reflexivity.
+Qed.
+
+Lemma expand_incl gr d k g sched : forall st t, In t sched -> In t (expand gr d k g sched st).
+Proof.
+  induction sched as [|x r IH]; intros st t Hin; [destruct Hin|].
+  cbn [expand]. apply in_or_app. destruct Hin as [->|Hin]; [left; apply hsched_head | right; apply IH; exact Hin].
+Qed.
+
+(* a weakly fair sequence of rounds of the hand-off machine expands to one of the machine, of the same length *)
+Lemma expand_rounds gr d k g nt rounds : forall st,
+  Forall (covers nt) rounds ->
+  exists rounds', length rounds' = length rounds /\ Forall (covers nt) rounds' /\
+                  expand gr d k g (concat rounds) st = concat rounds'.
+Proof.
+  induction rounds as [|r rs IH]; intros st Hc; [exists []; repeat split; constructor|].
+  inversion Hc as [|? ? Hr Hrs]; subst.
+  assert (Happ : forall a b s, expand gr d k g (a ++ b) s = expand gr d k g a s ++ expand gr d k g b (hrun_from gr d k g a s)).
+  { induction a as [|x a IHa]; intros b s; [reflexivity|].
+    cbn [app expand]. rewrite IHa, <- app_assoc. reflexivity. }
+  destruct (IH (hrun_from gr d k g r st) Hrs) as (rs' & Hl & Hc' & He).
+  exists (expand gr d k g r st :: rs'). split; [cbn; rewrite Hl; reflexivity|]. split.
+  - constructor; [|exact Hc']. intros t Ht. apply expand_incl. apply Hr. exact Ht.
+  - cbn [concat]. rewrite Happ, He. reflexivity.
+Qed.
+
+(* hence everything proved for all schedules of the machine holds of every hand-off mutex *)
+Theorem handoff_results gr k g calls sched t : calls_ok calls ->
+  exists j, nth t (results (hrun gr Guarded k g calls sched)) [] =
+            map (result_solo k g) (firstn j (nth t calls [])).
+Proof. intros Hok. rewrite handoff_refines. apply guarded_results. exact Hok. Qed.
+
+Theorem handoff_fair_complete gr k g calls rounds : calls_ok calls ->
+  weakly_fair (length calls) rounds -> fuel_bound g calls <= length rounds ->
+  all_done (hrun gr Guarded k g calls (concat rounds)) = true /\
+  results (hrun gr Guarded k g calls (concat rounds)) = map (map (result_solo k g)) calls.
+Proof.
+  intros Hok Hc Hb. rewrite handoff_refines.
+  destruct (expand_rounds gr Guarded k g (length calls) rounds (init calls) Hc) as (rs' & Hl & Hc' & He).
+  rewrite He. apply guarded_fair_complete; [exact Hok | exact Hc' | rewrite Hl; exact Hb].
+Qed.
+
+Theorem handoff_no_deadlock gr k g calls sched : calls_ok calls ->
+  all_done (hrun gr Guarded k g calls sched) = false ->
+  exists t, t < length calls /\ can_step (hrun gr Guarded k g calls sched) t /\
+            gstep Guarded k g t (hrun gr Guarded k g calls sched) <> hrun gr Guarded k g calls sched.
+Proof. intros Hok. rewrite handoff_refines. apply guarded_progress. exact Hok. Qed.
